@@ -66,6 +66,7 @@ let run () =
         | ["nearnoself"] -> Some Size
         | ["sput"; k; v] -> Some (Put (bytes_of_hex k @ [N0], bytes_of_hex v @ [N0]))      (* string interface: terminators are part of key and value *)
         | ["sget"; k] -> Some (Get (bytes_of_hex k @ [N0]))
+        | ["sgets"; k; _] -> Some (Get (bytes_of_hex k @ [N0]))     (* getstr() then get: reads change nothing *)
         | ["srem"; k] -> Some (Remove (bytes_of_hex k @ [N0]))
         | ["put"; k; v] -> Some (Put (bytes_of_hex k, bytes_of_hex v))
         | ["get"; k] -> Some (Get (bytes_of_hex k))
